@@ -251,9 +251,9 @@ def run_batch(chk, cases, replaying=False):
             mc = m[0]
             chk.count(f'not_generated_{lang}_{ic[0]}')
             if (ic[0] == 'ok') != (mc == 'ok'):
-                chk.violation(f'outcome-{lang}-{prog.seed}', dict(payload, impl=ic[0], model=mc),
-                              'model and implementation disagree on whether output is produced', no_input=True)
-                nviol += 1
+                chk.count('outcome_mismatch')
+                soft(chk).append(('outcome', dict(payload, impl=list(ic), model=mc),
+                                  'model and implementation disagree on whether output is produced'))
             continue
         mo = obs_model(lang, m[1])
         if unparsed or [a for a in anomalies if 'CodingKeys' in a]:
@@ -331,12 +331,29 @@ def run_batch(chk, cases, replaying=False):
             nviol += 1
             continue
         mismatch.append(payload)
-    if mismatch and not nviol and not replaying:
+    if mismatch:
         chk.counters['obs_mismatch_cases'] = chk.counters.get('obs_mismatch_cases', 0) + len(mismatch)
-        chk.violation('correspondence', dict(mismatch[0], n_cases=len(mismatch)),
-                      'model and implementation observations (definition, member, wire key, binding) differ although the implementation satisfies good_C01', no_input=True)
-        nviol += 1
+        soft(chk).append(('correspondence', dict(mismatch[0], n_cases=len(mismatch)),
+                          'model and implementation observations (definition, member, wire key, binding) differ although the implementation satisfies good_C01'))
     return nviol
+
+
+def soft(chk):
+    """disagreements between model and implementation without a failing input: reported (once per kind) only when
+    the search found no input on which the implementation fails"""
+    if not hasattr(chk, 'c01_soft'):
+        chk.c01_soft = []
+    return chk.c01_soft
+
+
+def report_soft(chk):
+    if any(not v[2] for v in chk.violations):
+        return
+    seen = set()
+    for kind, payload, what in soft(chk):
+        if kind not in seen:
+            seen.add(kind)
+            chk.violation(kind, dict(payload, n_cases=sum(1 for x in soft(chk) if x[0] == kind)), what, no_input=True)
 
 
 def make_case(rng, seed):
@@ -371,15 +388,111 @@ def run(chk):
     for i in range(0, n, batch):
         cases = [make_case(chk.rng, s) for s in seeds[i:i + batch]]
         run_batch(chk, cases)
+    report_soft(chk)
     if chk.tier == 'thorough':
-        serde_ground_truth(chk, seeds[:400])
+        serde_ground_truth(chk, seeds[:1500])
 
 
 # ---------------------------------------------------------------- thorough: real serde_derive + serde_json
+def rs_fields(r, fields):
+    """the non-skipped fields with their serde attributes as the generator spells them (permuted / split), all of type u8"""
+    lines, idents = [], []
+    for f in fields:
+        if f.skip is not None:
+            continue
+        for a in progs.field_attrs(r, f):
+            if a.startswith('#[serde('):
+                lines.append('        ' + a)
+        lines.append(f'        {f.ident}: u8,')
+        idents.append(f.ident)
+    return lines, idents
+
+
+def rs_module(k, it, seed):
+    """Rust module deriving Serialize for the item (field types replaced by u8) and printing one JSON text per member list"""
+    import random
+    r = random.Random(seed)
+    out = [f'mod c{k} {{', '    use serde::Serialize;']
+    prints = []
+    if it.kind == 'struct':
+        parts = ([f'rename_all = {progs.rs_lit(it.rename_all)}'] if it.rename_all is not None else [])
+        out += ['    #[derive(Serialize)]'] + ['    ' + a for a in progs.serde_attrs(r, parts)]
+        lines, idents = rs_fields(r, it.fields)
+        out += ['    pub struct S {'] + lines + ['    }']
+        prints.append('S { ' + ', '.join(f'{i}: 0' for i in idents) + ' }')
+    else:
+        parts = [f'tag = "t"', f'content = "c"'] + ([f'rename_all = {progs.rs_lit(it.rename_all)}'] if it.rename_all is not None else [])
+        out += ['    #[derive(Serialize)]'] + ['    ' + a for a in progs.serde_attrs(r, parts)]
+        out += ['    #[allow(dead_code)]', '    pub enum E {']
+        for n, v in enumerate(it.variants):
+            if v.skip is not None:
+                continue
+            vparts = ([f'rename_all = {progs.rs_lit(v.rename_all)}'] if v.rename_all is not None else [])
+            out += ['        ' + a for a in progs.serde_attrs(r, vparts)]
+            if v.kind == 'struct':
+                lines, idents = rs_fields(r, v.fields)
+                out += [f'        V{n} {{'] + ['    ' + l for l in lines] + ['        },']
+                prints.append(f'E::V{n} {{ ' + ', '.join(f'{i}: 0' for i in idents) + ' }')
+            elif v.kind == 'tuple':
+                out.append(f'        V{n}(u8),')
+            else:
+                out.append(f'        V{n},')
+        out.append('    }')
+    out.append('    pub fn run() {')
+    for g, e in enumerate(prints):
+        out.append(f'        println!("{k} {g} {"S" if it.kind == "struct" else "E"} {{}}", serde_json::to_string(&{e}).unwrap());')
+    out += ['    }', '}']
+    return out, len(prints)
+
+
 def serde_ground_truth(chk, seeds):
     """compile a batch of generated types with the real serde_derive and compare the JSON keys serde_json
     writes with Spec/Serde.v's keys (validates the oracle itself)"""
-    chk.notes.append('serde ground truth: not run (see serde_oracle)')
+    cases = [make_case(chk.rng, s) for s in seeds]
+    asts = vf.impl([{'cmd': 'ast', 'src': c[1]} for c in cases])
+    exp = vf.model([f'(c01_expected () {a["ok"]})' for a in asts])
+    mods, meta = [], []
+    for (prog, src, cfgs), e in zip(cases, exp):
+        byname = {vf.unS(x[0]): x for x in e}
+        for it in prog.items:
+            if it.annotated and it.kind in ('struct', 'alg_enum') and it.ident in byname and byname[it.ident][2] == 'true' and byname[it.ident][4] != 'none':
+                x = byname[it.ident]
+                lines, n = rs_module(len(meta), it, prog.seed)
+                mods += lines
+                meta.append((prog.seed, it.ident, [[vf.unS(kk) for kk in g] for g in x[4][1]], n))
+    d = vf.tmpdir('verif-c01-serde-')
+    (d / 'src').mkdir()
+    (d / 'Cargo.toml').write_text('[package]\nname = "c01serde"\nversion = "0.1.0"\nedition = "2021"\n[workspace]\n[dependencies]\n'
+                                  'serde = { version = "1", features = ["derive"] }\nserde_json = "1"\n[profile.dev]\nopt-level = 0\ndebug = false\n')
+    lock = vf.ROOT / 'harness' / 'libdrive' / 'Cargo.lock'
+    (d / 'src' / 'main.rs').write_text('#![allow(non_snake_case, non_camel_case_types, unused)]\n' + '\n'.join(mods) + '\nfn main() {\n' +
+                                       '\n'.join(f'    c{k}::run();' for k in range(len(meta))) + '\n}\n')
+    env = dict(vf.ENV, CARGO_TARGET_DIR=str(vf.BUILD / 'c01-serde-target'))
+    rc, out, err = vf.run(['cargo', 'run', '--offline', '-q'], cwd=d, env=env, timeout=1500)
+    if rc != 0:
+        chk.notes.append('serde ground truth: the batch did not build / run: ' + err[-600:])
+        chk.violation('serde-ground-truth-build', {'stderr': err[-3000:]}, 'the serde_derive + serde_json batch could not be built', no_input=True)
+        return
+    got = {}
+    for line in out.splitlines():
+        k, g, kind, js = line.split(' ', 3)
+        pairs = json.loads(js, object_pairs_hook=lambda ps: ps)
+        if kind == 'E':       # adjacently tagged: {"t": .., "c": {..}}
+            inner = [v for kk, v in pairs if kk == 'c']
+            keys = [kk for kk, _ in inner[0]] if inner and isinstance(inner[0], list) else None
+        else:
+            keys = [kk for kk, _ in pairs]
+        got.setdefault(int(k), {})[int(g)] = keys
+    bad = 0
+    for k, (seed, ident, egroups, n) in enumerate(meta):
+        real = [got.get(k, {}).get(g) for g in range(n)]
+        chk.count('serde_json_items')
+        chk.count('serde_json_keys', sum(len(g) for g in egroups))
+        if real != egroups:
+            bad += 1
+            chk.violation(f'serde-ground-truth-{seed}-{ident}', {'seed': seed, 'item': ident, 'spec': egroups, 'serde_json': real},
+                          "Spec/Serde.v's keys differ from the keys real serde_derive + serde_json write", no_input=True)
+    chk.notes.append(f'serde ground truth: {len(meta)} items compiled with real serde_derive, {bad} disagreements with the Gallina spec')
 
 
 def replay(chk, path):
